@@ -42,8 +42,13 @@ INFO = dict(
               "(method resolution and defaults of the three image classes, pseudoinverse suppliers of the family, the "
               "arguments each operation hands to warp_to_shape) + the TRANSLATOR TIE: 41 functions of menpo/image/base.py, "
               "masked.py, boolean.py, interpolation.py and menpo/transform/compositions.py are translated from their SOURCE "
-              "TEXT into Lean on every run (harness/trans_c01.py, py2lean2 + py2lean2w + py2lean2c + py2lean2n: helpers without a rule are inlined at their call sites, temporaries that are fragments of a vocabulary unit are substituted into their uses, guard loops and any(...) share one form, views such as result[0] are tracked as aliases - so behaviour-preserving refactorings keep the obligations) and proved equal, for all "
-              "arguments, to the plans executed through the funnel - 23 of them a second time, from the same text, over a 3-D vocabulary (94 obligations re-checked by lake on every run) + "
+              "TEXT into Lean on every run and proved equal to the model - for all arguments where the statement is an unconditional "
+              "equation (funnel, sampler, helpers, crop family, zoom, mirror, generators), and under the stated non-degeneracy "
+              "hypotheses where the plan has a `degenerate` guard the code lacks (rescale family: extents >= 2 and non-zero "
+              "index-space factors; transform_about_centre / rotate: det != 0; the square-root contracts); error kinds are "
+              "compared modulo PyExc.toErr, which merges ValueError / TypeError / ZeroDivisionError / OutOfMaskSampleError into "
+              "`value` (harness/trans_c01.py, py2lean2 + py2lean2w + py2lean2c + py2lean2n: helpers without a rule are inlined at their call sites, temporaries that are fragments of a vocabulary unit are substituted into their uses, guard loops and any(...) share one form, views such as result[0] are tracked as aliases - so behaviour-preserving refactorings keep the obligations) against "
+              "the plans executed through the funnel - 23 of them a second time, from the same text, over a 3-D vocabulary (94 obligations re-checked by lake on every run) + "
               "model/implementation correspondence (query protocol: "
               "shapes, transforms, landmarks, sampled pixels and mask pixels, whole operation sequences) + an independent "
               "registration oracle on analytically known images",
@@ -75,8 +80,11 @@ INFO = dict(
                "gaussian_pyramid: a symmetric kernel of total weight 1 with scipy's reflect rule reproduces an affine ramp "
                "at every pixel at least one radius from the border, hence every level is registered for landmarks whose "
                "cell is sampled there; (e) sequences of operations: by induction over the operation list the composition of "
-               "the returned transforms is invertible and maps the final landmarks onto the first ones (also: every level "
-               "of pyramid and gaussian_pyramid); (f) the closed forms Rotation(inv R), NonUniformScale(1/s), "
+               "the returned transforms is invertible and maps the final landmarks onto the first ones; for pyramid and "
+               "gaussian_pyramid the Part-2 theorems pyramid_levels_registered / gauss_pyramid_levels_registered only say that "
+               "the landmarks of every level are SOME invertible affine image of the originals (the map is existential there) - "
+               "the per-level statement with the explicit transform, pixels and mask is genPyramid_steps + "
+               "pyramidStepObj_registered of Part 3; (f) the closed forms Rotation(inv R), NonUniformScale(1/s), "
                "UniformScale(1/s), Translation(-t) are the matrix inverse on the matrices their classes hold, so every class "
                "of the family moves landmarks by the inverse of the map used for the pixels; (g) each operation hands "
                "warp_to_shape exactly the order/mode its plan carries.  Part 3 (the translator tie, GenProps/C01Src.lean + "
@@ -105,7 +113,8 @@ INFO = dict(
                "funnel for every interpolation order (GenProps/C01Src3.lean), with the property restated for 3-D objects "
                "(Registered3, cropResult3_exact).  A `self.method(...)` call site is normalised against the signature AND THE DEFAULTS of the "
                "callee as its source has them now, per class of the receiver (method resolution of the live classes).  Every "
-               "translated operation is proved equal - error kinds included - to its plan executed on an image object with any "
+               "translated operation is proved equal (error kinds modulo the merge of PyExc.toErr; rescale family under its "
+               "non-degeneracy hypotheses; MaskedImage.sample for verify_mask=False) to its plan executed on an image object with any "
                "number of channels (Plan2.result / cropResult), and the property is restated for what the translated code "
                "returns (Registered: returned transform, landmarks, every pixel of every channel, mask; registration at grid "
                "landmarks for every order; affine content under bilinear interpolation; the crop family exact).  The class of "
@@ -123,9 +132,22 @@ INFO = dict(
                "and the C01 vocabulary harness/trans_c01.py: numpy vector arithmetic, PointCloud.bounds / range, the "
                "constructors and compose_before of the transform classes (class ladder: C03), boolean-mask indexing, the "
                "LandmarkManager setter, `self.mask` being a BooleanImage are vocabulary (their meaning is Core/C01Src.lean's, "
-               "tied by the correspondence); the 2-D typing of vectors (`n_dims` = 2); the point-in-pointcloud test of the constrain "
+               "tied by the correspondence); further vocabulary units that are whole library / menpo helpers mapped to one word "
+               "and therefore trusted, not translated: indices_for_image_of_shape and BooleanImage.true_indices (modelled as "
+               "the identity array of points indexed by the template pixel), the pixel order of reshape / ravel / "
+               "_from_vector_inplace / boolean-mask assignment (reshapeSampled, fromSampledMasked), transform.apply ignoring "
+               "batch_size, Image.as_masked, MaskedImage.init_blank, bounding_box, AlignmentUniformScale(...).as_vector()[0], "
+               "gaussian_filter, verify_mask's np.all (sampledAllTrue = true); the dimension guards (`self.n_dims != "
+               "transform.n_dims`) are vacuous in a model typed by dimension; the 2-D typing of vectors (`n_dims` = 2); the point-in-pointcloud test of the constrain "
                "operations (PiecewiseAffine containment, C09) is a contract parameter: the oracle judges the new mask against the "
-               "exact convex hull of the group, the driver receives the containment bits of the queried pixels.  Contract parameters (checked numerically on every run, not proved): scipy.ndimage.map_coordinates "
+               "exact convex hull of the group, the driver receives the containment bits of the queried pixels.  "
+               "funnel_pixel, funnelS_pixel, mask_same_mapping, the pixel conjunct of returned_transform_consistent2/3 and "
+               "execObj_frame / _lms / _mask are definitional unfoldings of the model (their content is the translator tie and "
+               "the correspondence), counted among the audited theorems but not independent results.  Everything holds for the "
+               "scipy path only: a live cv2_perspective_interpolation makes the translation of Image.warp_to_shape a stub (broken "
+               "obligation).  maskMode (cval cast for Boolean output) is claimed for |cval| < 256 only (scipy casts through 8 "
+               "bits: 256.0 wraps to False); the harness uses 0/1 there.  "
+               "Contract parameters (checked numerically on every run, not proved): scipy.ndimage.map_coordinates "
                "implements orders 0/1 with the half-up rounding and the constant/nearest boundary rules of the model, and "
                "orders 2-5 are interpolating (return the pixel at a grid point); np.linalg.inv is the matrix inverse (the "
                "closed-form pseudoinverses of Rotation / the scales / Translation are proved, the generic one is C04); "
@@ -148,17 +170,48 @@ INFO = dict(
              "interpolation orders 2-5: the spline sampler is a contract parameter (interpolating); what is proved for them "
              "is order independence of landmarks/transform/mask, the funnel identity and registration on grid points; the "
              "reproduction of affine content by splines (which holds only away from the border) is not modelled",
+             "landmarks near the far border (audit F1): Image.rescale uses the index-space factors (s*len-1)/(len-1) but a "
+             "template of ceil|round(s*len) pixels, so when s*len is not an integer the last result row / column is sampled "
+             "beyond the source (clamped, mode nearest); a landmark whose result cell contains such a pixel is NOT registered "
+             "even on affine content on the unchanged code (error <= slope * 1 px: e.g. 10x10, rescale(0.75), landmark (9,9): "
+             "95.19 instead of 99.0; 9x9 ramp, pyramid level 1, landmark (7.5,7.5): 78.96 instead of 82.5), and under "
+             "round='floor' it may leave the result frame.  The registration theorems assume the landmark's cell is sampled "
+             "inside the source (hcell / hroom), the oracle does not judge such landmarks (counted as landmarks-skipped-border) "
+             "and the pyramid generators keep landmarks in the part of the image where every level is clear of that band.  "
+             "Decision: a limit of what resampling at the clamped border can give, recorded here, not a known finding",
+             "MaskedImage.warp_to_mask / Image.warp_to_mask (audit F3): menpo attaches the TEMPLATE mask to the result and drops "
+             "the source mask; the model follows the code (imageWarpToMask), the clause 'the mask is carried by the same "
+             "mapping' is read as not applicable to warp_to_mask, the oracle judges pixels and landmarks only and a result "
+             "whose mask is not the template is a correspondence observation, not a failure",
+             "landmark groups (audit F6): the translated model keeps ONE list of landmark points per image (lmGroup / "
+             "groupNames / setLmGroup ignore the group name), so the obligations about crop_to_landmarks, "
+             "rescale_to_pointcloud, rescale_landmarks_to_diagonal_range, constrain_* hold for every `group` only because the "
+             "argument is discarded; that the right group is selected and that EVERY group is moved is decided by the oracle "
+             "and the correspondence (two groups of different shape classes per case), not by the translated obligations",
+             "aliasing / non-mutation (audit F5): the translation is value-level.  `points.copy()` in "
+             "constrain_points_to_bounds is typed (Owned: a dropped copy no longer type-checks); for image objects "
+             "(`self.copy()`, `template_mask.copy()`, copy= flags) a dropped copy gives the same translation - that the source "
+             "image is not changed is decided by the oracle's before/after comparisons, not by the obligations",
+             "warp_landmarks: every *_registered theorem and every harness call fixes warp_landmarks=True; with the class "
+             "default of MaskedImage.warp_to_shape / warp_to_mask (False, pinned by dispatch_ok) the result has no landmarks "
+             "(warpLms = []), which is outside the property's 'returned landmark' clause",
              "outputs with an extent of a single pixel (scale*len <= 1) are outside the modelled domain: the index-space "
              "factor of Image.rescale is 0 or negative there and no registration is possible on one pixel",
              "integer dtypes: proved for registration at grid landmarks (int_registration_grid: within half a level for any "
              "store that rounds to a nearest integer, exact for order 0 on integer content); that scipy's cast of the output "
-             "array is such a store is a contract (compared to within half a level on every integer case); the bilinear "
+             "array is such a store is a contract (compared to within half a level on every integer case; it is FALSE when a "
+             "spline order >= 2 overshoots the dtype range - the value wraps - which the generators avoid by keeping integer "
+             "content inside the range); the bilinear "
              "registration of affine content is not restated for the rounded result",
              "3-D: every interpolation order is covered for the translated n-D operations (funnel identity per channel, "
              "landmarks / returned transform / mask, registration at grid landmarks, affine content under trilinear "
              "interpolation: GenProps/C01Src3Props.lean); the non-affine bound (piecewise affine / spline warps), the sequence "
              "theorems and the sampling registration of sub-pixel landmarks of a crop are stated in 2-D only"],
     assumptions=["scipy.ndimage.map_coordinates orders 0/1 follow the documented constant/nearest rules; orders 2-5 interpolate",
+                 "cv2 is absent (menpo.image.base.cv2_perspective_interpolation is None): only the scipy path is modelled",
+                 "Boolean output: |cval| < 256 (the 8-bit cast of larger values is not modelled)",
+                 "the translated obligations are value-level: object identity, copy= flags and in-place updates of image "
+                 "objects are decided by the oracle's before/after comparisons, not by the obligations",
                  "numpy trigonometric functions and square roots are accurate to 1e-12",
                  "ThinPlateSplines.pseudoinverse is repaired (notes/fixes/C04-tps-pseudoinverse-kernel.diff); on a tree "
                  "without that fix the TPS landmark clause is reported as a violation"],
@@ -1462,7 +1515,28 @@ class Run:
                 # pyramid levels come without a transform: keep clear of the clamped far border (and, for the
                 # gaussian pyramid, of the blur's border zone on both sides)
                 lo_m, hi_m = (5.0, 6.0) if n == "gaussian_pyramid" else (0.0, 4.0)
+                # F2 (audit): the mask of a pyramid level is carried with the landmarks - judged at every landmark that is
+                # clearly on one side of a straight mask edge (margin: the rounding of both nearest-neighbour reads)
+                if case["cls"] == "masked" and case["mask"][0] in ("half", "const") and src_mask is not None \
+                        and np.all(l >= 0) and np.all(l <= np.array(shape) - 1.0):
+                    clear = True
+                    if case["mask"][0] == "half":
+                        co = np.array(case["mask"][1:1 + d], dtype=float)
+                        dist = abs(float(co.dot(l)) + float(case["mask"][-1])) / float(np.sqrt(co.dot(co)))
+                        clear = dist > 1.5 + 1.5 * float(op["downscale"]) ** (level or 1)
+                    if clear:
+                        pm = tuple(np.clip(np.floor(lp + 0.5).astype(int), 0, np.array(rshape) - 1))
+                        sm = tuple(np.clip(np.floor(l + 0.5).astype(int), 0, np.array(shape) - 1))
+                        gm, wm = bool(res.mask.pixels[(0,) + pm]), bool(src_mask[sm])
+                        ctx.count("pyramid-mask-at-landmark-checked")
+                        if gm != wm:
+                            self.fail(case, "mask", "mask(landmark')!=mask(landmark)",
+                                      "level %s: mask at the returned landmark %r is %r, at the original landmark %r (%.1f px "
+                                      "from the mask edge) it is %r" % (level, lp.tolist(), gm, l.tolist(),
+                                                                        dist if case["mask"][0] == "half" else -1.0, wm))
+                            return checked
                 if np.any(lp < lo_m) or np.any(lp > np.array(rshape) - hi_m):
+                    ctx.count("landmarks-skipped-border")
                     continue
             lp = np.clip(lp, 0, np.array(rshape) - 1.0)
             on_grid = bool(np.all(np.abs(lp - np.round(lp)) < 1e-9))
@@ -1493,6 +1567,9 @@ class Run:
                         continue
                     csrc = tr.apply(corners)
                     if not np.all(inside_src(csrc, shape, mode, is_exact(case))):
+                        # a corner of the landmark's cell is sampled outside the source (e.g. the last row / column of a
+                        # rescale whose scale * length is not an integer): outside what is proved, not judged - counted
+                        ctx.count("landmarks-skipped-border")
                         continue
                     # multilinear interpolation of the transform over the cell: how non-affine it is there
                     wts = np.ones(len(corners))
@@ -1590,7 +1667,10 @@ class Run:
             if (n in WMASK):
                 if case["cls"] != "bool":
                     if not np.array_equal(res.mask.pixels[0], tmask):
-                        self.fail(case, "mask", "template-mask-not-kept", "warp_to_mask result does not carry the template mask")
+                        # menpo attaches the TEMPLATE as the mask of a warp_to_mask result (the source mask is dropped); the
+                        # property text does not say which mask such a result carries, so this is an observation about
+                        # the modelled behaviour (Core imageWarpToMask), not an oracle failure
+                        self.mismatch(case, "mask", "warp_to_mask result does not carry the template mask as its mask")
             for k in range(len(pix)):
                 p = tuple(pix[k])
                 if not ins[k] or (tmask is not None and not tmask[p]):
